@@ -108,9 +108,19 @@ Inductive ures :=
 | UPanic                     (* the Go code panics (index out of range) *)
 | UMeta.                     (* a path under "meta": metadata, not modelled here *)
 
+(** Switch for defect C05_1 (fixes/C05_1_path_origin_index.diff): [false] = the
+    code as it is now, [true] = the code with the patch. *)
+Definition fix_C05_1 : bool := false.
+
 (** cache.joinPrefixAndPath: [p = p[1:]] panics on an empty slice *)
 Definition join_prefix_path (pr : gpath) (ph : option gpath) : option path :=
-  match to_strings (Some pr) true ++ to_strings ph false with
+  match to_strings (Some pr) true
+        (* DEFECT C05_1: an origin carried by the update/delete path (prefix origin
+           empty) is dropped from the index path, although CompletePath resolves a
+           subscription naming it to [origin; ...].  Once the patch is in this
+           branch inserts the origin: set [fix_C05_1 := true]. *)
+        ++ (if fix_C05_1 && String.eqb (g_origin pr) "" then nonempty (origin_of ph) else [])
+        ++ to_strings ph false with
   | [] => None
   | _ :: r => Some r
   end.
